@@ -90,21 +90,29 @@ type storeCfg struct {
 	sem int // 0: no semaphore
 }
 
-func openStore(dir string, pass []byte, cfg storeCfg, opts ...store.Option) (*store.WriteControlledStore, error) {
+// openBoth opens the on-disk store and wraps it; both handles are returned.
+func openBoth(dir string, pass []byte, cfg storeCfg, opts ...store.Option) (store.Store, *store.WriteControlledStore, error) {
 	if cfg.sem > 0 {
 		opts = append(opts, store.WithSemaphore(store.NewSemaphore(cfg.sem, async.NoopPanicHandler{})))
 	}
 
 	s, err := store.NewOnDiskStore(dir, pass, opts...)
 	if err != nil {
-		return nil, err
+		return nil, nil, err
 	}
 
-	return store.NewWriteControlledStore(s), nil
+	return s, store.NewWriteControlledStore(s), nil
+}
+
+func openStore(dir string, pass []byte, cfg storeCfg, opts ...store.Option) (*store.WriteControlledStore, error) {
+	_, w, err := openBoth(dir, pass, cfg, opts...)
+	return w, err
 }
 
 func TestStoreModel(t *testing.T) {
-	ev.Checks(1800, 2500)
+	// thorough: per shard (x16), built with -race (about 10x slower per case than the quick tier)
+	ev.Checks(1500, 800)
+	resetBigBudget()
 
 	rapid.Check(t, func(rt *rapid.T) {
 		dir, err := os.MkdirTemp("", "c09-model-")
@@ -117,8 +125,32 @@ func TestStoreModel(t *testing.T) {
 		pass := []byte(rapid.SampledFrom([]string{"pass", "", "p\x00q", strings.Repeat("k", 100)}).Draw(rt, "pass"))
 		cfg := storeCfg{sem: rapid.SampledFrom([]int{0, 0, 1, 4}).Draw(rt, "sem")}
 
-		st, err := openStore(dir, pass, cfg)
-		if err != nil {
+		// the store under test: the on-disk store behind the write-controlled wrapper, or (1 in 4) the bare on-disk store
+		// (the wrapper hands Delete to it one id at a time, the bare store takes the whole list)
+		wrapped := rapid.IntRange(0, 3).Draw(rt, "bare") != 0
+
+		var (
+			st  store.Store
+			wcs *store.WriteControlledStore
+		)
+
+		open := func() error {
+			bare, w, err := openBoth(dir, pass, cfg)
+			if err != nil {
+				return err
+			}
+
+			wcs = w
+			if wrapped {
+				st = w
+			} else {
+				st = bare
+			}
+
+			return nil
+		}
+
+		if err := open(); err != nil {
 			rt.Fatalf("open: %v", err)
 		}
 
@@ -139,8 +171,8 @@ func TestStoreModel(t *testing.T) {
 
 		logf := func(f string, a ...any) { history = append(history, fmt.Sprintf(f, a...)) }
 		fail := func(f string, a ...any) {
-			rt.Fatalf("%s\nhistory (dir %s, pass %q, sem %d):\n  %s", fmt.Sprintf(f, a...), dir, pass, cfg.sem,
-				strings.Join(history, "\n  "))
+			rt.Fatalf("%s\nhistory (dir %s, pass %q, sem %d, write-controlled wrapper %v):\n  %s", fmt.Sprintf(f, a...), dir,
+				pass, cfg.sem, wrapped, strings.Join(history, "\n  "))
 		}
 
 		defer func() {
@@ -150,7 +182,7 @@ func TestStoreModel(t *testing.T) {
 			}
 
 			sort.Strings(ls)
-			ev.Case(nontrivial, ev.Hash(hashParts...), append(ls, "test:model")...)
+			ev.Case(nontrivial, ev.Hash(hashParts...), append(ls, "test:model", fmt.Sprintf("model:wrapped=%v", wrapped))...)
 
 			if ev.WantSample() {
 				ev.Sample(map[string]any{"test": "model", "ids": nIDs, "history": history})
@@ -248,7 +280,19 @@ func TestStoreModel(t *testing.T) {
 					nontrivial = true
 				}
 
-				err, p := safeSet(st, ids[i], rd)
+				var (
+					err error
+					p   string
+				)
+
+				if wrapped && !over && rapid.IntRange(0, 3).Draw(rt, "setUnchecked") == 0 {
+					// SetUnchecked: allowed for an id that does not exist yet
+					logf("  (through SetUnchecked)")
+					p = guarded(func() { err = wcs.SetUnchecked(ids[i], rd) })
+				} else {
+					err, p = safeSet(st, ids[i], rd)
+				}
+
 				if p != "" {
 					fail("Set panicked: %s", p)
 				}
@@ -300,10 +344,19 @@ func TestStoreModel(t *testing.T) {
 					}
 				}
 
-				logf("Delete(ids %v) allStored=%v", perm, allStored)
+				// DeleteUnchecked is the wrapper's pass-through to the on-disk store's multi-id Delete (its contract, "not in
+				// use anywhere", holds in a sequential history)
+				unchecked := wrapped && rapid.Bool().Draw(rt, "unchecked")
+				logf("Delete(ids %v) allStored=%v unchecked=%v", perm, allStored, unchecked)
 
 				var err error
-				if p := guarded(func() { err = st.Delete(args...) }); p != "" {
+				if p := guarded(func() {
+					if unchecked {
+						err = wcs.DeleteUnchecked(args...)
+					} else {
+						err = st.Delete(args...)
+					}
+				}); p != "" {
 					fail("Delete panicked: %s", p)
 				}
 
@@ -360,8 +413,7 @@ func TestStoreModel(t *testing.T) {
 					fail("Close: %v", err)
 				}
 
-				st, err = openStore(dir, pass, cfg)
-				if err != nil {
+				if err := open(); err != nil {
 					fail("reopen: %v", err)
 				}
 			}
